@@ -191,8 +191,9 @@ unsafe impl<'a> BufMut for NodeMut<'a> {
             NodeMut::Slice(x) => x.put(src),
             NodeMut::Uninit(x) => x.put(src),
             NodeMut::Seg(x) => x.put(src),
-            NodeMut::Chain(x) => x.put(src),
-            NodeMut::Limit(x) => x.put(src),
+            // (**x): the adapter's own `put`, not the default one of `Box<T>`
+            NodeMut::Chain(x) => (**x).put(src),
+            NodeMut::Limit(x) => (**x).put(src),
             NodeMut::MutRef(x) => {
                 let mut r: &mut NodeMut<'a> = &mut **x;
                 BufMut::put(&mut r, src)
@@ -314,6 +315,13 @@ impl Tm {
             Tm::Grow { .. } => false,
             Tm::Chain(a, b) => a.all_fixed() && b.all_fixed(),
             Tm::Limit { inner, .. } => inner.all_fixed(),
+        }
+    }
+    pub fn has_chain(&self) -> bool {
+        match self {
+            Tm::Chain(..) => true,
+            Tm::Limit { inner, .. } => inner.has_chain(),
+            _ => false,
         }
     }
     /// bounded: remaining() is a real byte budget (no growable leaf reachable without a limit)
@@ -518,7 +526,12 @@ pub fn gen_wop(rng: &mut Rng, tm: &Tm, root_is_limit: bool) -> J {
         };
         J::obj().set("op", "put").set("m", format!("put_{}", base)).set("hi", hi).set("lo", lo).set("nb", nb)
     };
-    match rng.weighted(&[10, 6, 4, 5, 4, 3, 3, 3, 2]) {
+    match rng.weighted(&[10, 6, 4, 5, 4, 3, 3, 3, 2, 2, 1]) {
+        9 => {
+            let n = if rem < (1 << 40) { rng.range(0, rem.min(300) + 2) } else { rng.range(0, 120) };
+            J::obj().set("op", "put_faulty").set("seed", rng.next_u64()).set("n", n).set("at", rng.range(1, 12))
+        }
+        10 => J::obj().set("op", "advance_over"),
         0 => put_typed(rng),
         1 => J::obj().set("op", "put_slice").set("seed", rng.next_u64()).set("n", fits(rng, over)),
         2 => {
@@ -548,10 +561,11 @@ pub fn gen_wop(rng: &mut Rng, tm: &Tm, root_is_limit: bool) -> J {
                 1 => usize::MAX,
                 _ => rng.range(0, 40),
             };
-            let inner = match rng.below(3) {
+            let inner = match rng.below(4) {
                 0 => put_typed(rng),
                 1 => J::obj().set("op", "put_slice").set("seed", rng.next_u64()).set("n", rng.range(0, lim.min(rem).min(60) + if over { 1 } else { 0 })),
-                _ => J::obj().set("op", "put_bytes").set("val", rng.below(256)).set("n", rng.range(0, lim.min(rem).min(60))),
+                2 => J::obj().set("op", "put_bytes").set("val", rng.below(256)).set("n", rng.range(0, lim.min(rem).min(60))),
+                _ => J::obj().set("op", "put_faulty").set("seed", rng.next_u64()).set("n", rng.range(0, lim.min(rem).min(60) + 1)).set("at", rng.range(1, 10)),
             };
             J::obj().set("op", "limit_tmp").set("lim", lim).set("inner", inner)
         }
@@ -683,9 +697,102 @@ enum WFlow {
 
 /// One write operation on any BufMut. `written` accumulates the appended bytes, `puts`
 /// the typed values for the read-back check.
+/// An honest segmented source whose `chunk()` / `advance()` panics at its `at`-th call:
+/// user code failing in the middle of `put(src)`.
+pub struct FaultySeg {
+    inner: node::SegBuf,
+    calls: std::cell::Cell<usize>,
+    at: usize,
+}
+impl FaultySeg {
+    fn tick(&self) {
+        let c = self.calls.get() + 1;
+        self.calls.set(c);
+        if c == self.at {
+            panic!("FaultySeg: source told to panic at call {}", c);
+        }
+    }
+}
+impl Buf for FaultySeg {
+    fn remaining(&self) -> usize {
+        self.inner.remaining()
+    }
+    fn chunk(&self) -> &[u8] {
+        self.tick();
+        self.inner.chunk()
+    }
+    fn advance(&mut self, cnt: usize) {
+        self.tick();
+        self.inner.advance(cnt)
+    }
+}
+
 fn do_wop<B: BufMut>(cx: &mut WCtx, b: &mut B, tm: &mut Tm, written: &mut Vec<u8>, puts: &mut Vec<(String, u128, usize, usize)>, op: &J, what: &str) -> WFlow {
     let name = op.str("op").unwrap_or("");
     let rem = tm.remaining();
+    if name == "put_faulty" {
+        // put(src) where src panics part-way: whatever prefix went through must be accounted for
+        // by every adapter on the way (the room that is left tells how much that was)
+        let data = Rng::new(op.u64("seed")).bytes(op.us("n").min(400));
+        let src = FaultySeg { inner: node::SegBuf::from_cuts(&data, op.u64("seed") ^ 0x77), calls: Default::default(), at: op.us("at").max(1) };
+        let r = catch_unwind(AssertUnwindSafe(|| put_any(b, src)));
+        return match r {
+            Ok(()) => {
+                if data.len() > rem {
+                    cx.law("write-did-not-fit-but-returned", format!("{}: put of a {}-byte source returned although only {} fit", what, data.len(), rem));
+                    return WFlow::End;
+                }
+                written.extend_from_slice(&data);
+                tm.write(data.len());
+                WFlow::Continue
+            }
+            Err(_) => {
+                cx.panics += 1;
+                if rem == usize::MAX {
+                    return WFlow::End; // saturated room: the transferred prefix cannot be read off
+                }
+                let rem1 = match catch_unwind(AssertUnwindSafe(|| b.remaining_mut())) {
+                    Ok(x) => x,
+                    Err(_) => return WFlow::End,
+                };
+                if rem1 > rem || rem - rem1 > data.len() {
+                    cx.law("room-after-interrupted-put", format!("{}: room went from {} to {} during a put of a {}-byte source that panicked", what, rem, rem1, data.len()));
+                    return WFlow::End;
+                }
+                let p = rem - rem1;
+                written.extend_from_slice(&data[..p]);
+                tm.write(p);
+                cx.hit("faulty_source_panicked");
+                if p > 0 {
+                    cx.hit("faulty_source_panicked_after_partial_transfer");
+                }
+                WFlow::Continue
+            }
+        };
+    }
+    if name == "advance_over" {
+        // advance_mut beyond the room that is there (nests without Chain: a Chain may have filled its
+        // first half before the second refuses): if it panics, nothing may have changed
+        if tm.has_chain() {
+            return WFlow::Continue;
+        }
+        let r = catch_unwind(AssertUnwindSafe(|| {
+            let cnt = if rem < (1 << 40) { rem + 1 } else { b.chunk_mut().len() + 1 };
+            unsafe { b.advance_mut(cnt) }
+        }));
+        return match r {
+            Ok(()) => {
+                // allowed ("may panic"); the cursor is then wherever the implementation put it
+                cx.hit("advance_mut_beyond_room_returned");
+                WFlow::End
+            }
+            Err(_) => {
+                cx.panics += 1;
+                cx.hit("advance_mut_beyond_room_refused");
+                WFlow::Refused
+            }
+        };
+    }
     let (bytes, must_panic_args): (Vec<u8>, bool) = match name {
         "put" => {
             let m = match gets::parse(op.str("m").unwrap_or("")) {
